@@ -588,6 +588,8 @@ type builder struct {
 	fn   func(env *Env, v Variant) ([]*Artifact, error)
 	// keys/digests this format cannot sign with (documented refusals)
 	skip func(v Variant) string
+	// substitute: a variant to use instead of a skipped one
+	substitute func(v Variant) (Variant, bool)
 }
 
 func main() {
@@ -644,20 +646,32 @@ func main() {
 		if len(only) > 0 && !only[b.name] {
 			continue
 		}
-		for _, v := range variants {
+		for vi, v := range variants {
 			if b.skip != nil {
 				if why := b.skip(v); why != "" {
-					skipped = append(skipped, fmt.Sprintf("%s %s: %s", b.name, v, why))
-					continue
+					if b.substitute != nil {
+						if v2, ok := b.substitute(v); ok {
+							skipped = append(skipped, fmt.Sprintf("%s %s: %s; %s used instead", b.name, v, why, v2))
+							v = v2
+						} else {
+							skipped = append(skipped, fmt.Sprintf("%s %s: %s", b.name, v, why))
+							continue
+						}
+					} else {
+						skipped = append(skipped, fmt.Sprintf("%s %s: %s", b.name, v, why))
+						continue
+					}
 				}
 			}
-			t0 := time.Now()
 			as, err := b.fn(env, v)
 			if err != nil {
-				cleanup()
-				harnessFatal("building %s artifacts (%s): %v", b.name, v, err)
+				if vi == 0 {
+					harnessFatal("building %s artifacts (%s): %v", b.name, v, err)
+				}
+				// a further key/digest the signer refuses (or the harness cannot map): stated, not fatal
+				skipped = append(skipped, fmt.Sprintf("%s %s: not built: %v", b.name, v, err))
+				continue
 			}
-			_ = t0
 			arts = append(arts, as...)
 		}
 	}
